@@ -138,10 +138,18 @@ fn src_burst(w: &W, j: usize) {
     }
 }
 fn src_greet(w: &W, j: usize) {
-    let sink = { let mut g = w.lock().unwrap(); g.srcs[j].st = SrcSt::Live; g.srcs[j].sink.clone().unwrap() };
+    let (sink, my_sub) = { let mut g = w.lock().unwrap(); g.srcs[j].st = SrcSt::Live; (g.srcs[j].sink.clone().unwrap(), g.srcs[j].subs) };
     let tb: Tb = Arc::new({
         let w = w.clone();
         move |m: Message<never::Never, u32>| {
+            // (this talkback belongs to one subscription of the puppet; a later subscription has its own)
+            let stale = { let g = w.lock().unwrap(); g.srcs[j].subs != my_sub };
+            if stale {
+                let name = w.lock().unwrap().srcs[j].name.clone();
+                log(&w, format!("{} (earlier subscription) <- {}", name, kind(&m)));
+                violate(&w, "C04", format!("{} sent on the talkback of an earlier subscription of {}, which is over", kind(&m), name));
+                return;
+            }
             let (st, name, out) = { let g = w.lock().unwrap(); let out = if g.sinks.len() == 1 { if g.sinks[0].st == SinkSt::Live || g.sinks[0].st == SinkSt::NotGreeted { " [output live]" } else { " [output over]" } } else { "" }; (g.srcs[j].st, g.srcs[j].name.clone(), out) };
             log(&w, format!("{} <- {}", name, kind(&m)));
             match m {
@@ -381,7 +389,8 @@ fn functional_checks(w: &W, op: &str) {
 /// C12 at quiescence: the upstream subscription is alive exactly while some sink is attached
 fn share_checks(w: &W) {
     let g = w.lock().unwrap();
-    let attached = g.sinks.iter().filter(|s| s.st == SinkSt::Live).count();
+    // (a sink that has subscribed and waits for the upstream's greeting counts as attached)
+    let attached = g.sinks.iter().filter(|s| s.st == SinkSt::Live || s.st == SinkSt::NotGreeted).count();
     let up_alive = g.srcs[0].st == SrcSt::Live || g.srcs[0].st == SrcSt::Pending;
     let mut v = vec![];
     // (a violation that concerns only sinks which attached during the hand-round of an end is worded apart: finding F13)
